@@ -31,7 +31,15 @@ fn v_default_like(p: &[u8]) -> Result<(), RErr> {
 
 /// stack-usage calculator installed by the SetCalc operation: depends on the PROGRAM (its id byte),
 /// so frame sizes computed for one program are recognisably wrong for another
+thread_local! {
+    /// armed by `Op::SetProgramCalcPanics`: the stack-usage calculator panics (a user callback failing
+    /// in the middle of a load; the caller catches the unwind and keeps using the VM)
+    static CALC_PANICS: std::cell::Cell<bool> = const { std::cell::Cell::new(false) };
+}
 fn calc_by_prog(prog: &[u8], _pc: usize, _d: &mut dyn std::any::Any) -> u16 {
+    if CALC_PANICS.with(|c| c.get()) {
+        panic!("harness: the stack usage calculator panics on purpose");
+    }
     8 * (1 + (prog[4] % 16) as u16)
 }
 fn frame_of(p: &PoolProg, calc: bool) -> u64 {
@@ -176,6 +184,8 @@ pub fn mk_pool(rng: &mut Rng, pkt_addr: u64) -> Vec<PoolProg> {
 pub enum Op {
     New(Option<usize>),
     SetProgram(usize),
+    /// set_program while the installed calculator (if any) panics; the panic is caught
+    SetProgramCalcPanics(usize),
     SetVerifier(Ver),
     RegisterHelper(usize),
     SetCalc,
@@ -193,6 +203,8 @@ pub enum Obs {
     Val(u64),
     Panic(String),
     Skipped,
+    /// the call unwound with the calculator's deliberate panic (caught)
+    CalcPanicked,
     /// the interpreter's result on this VM differs from a freshly built VM with the same program,
     /// verifier, helper and calculator (first = this VM, second = fresh VM)
     Diverged(String),
@@ -292,6 +304,19 @@ pub fn exec_history(kind: &Kind, ops: &[Op], pool: &[PoolProg], pk: (*mut u8, us
                         }
                         Err(_) => Obs::Err,
                     },
+                    Op::SetProgramCalcPanics(p) => {
+                        CALC_PANICS.with(|c| c.set(true));
+                        let r = std::panic::catch_unwind(std::panic::AssertUnwindSafe(|| vm.as_mut().unwrap().set_program(prog_slice(pool, *p), offs_of(*p))));
+                        CALC_PANICS.with(|c| c.set(false));
+                        match r {
+                            Ok(Ok(())) => {
+                                cur = Some(*p);
+                                Obs::Ok
+                            }
+                            Ok(Err(_)) => Obs::Err,
+                            Err(_) => Obs::CalcPanicked,
+                        }
+                    }
                     Op::SetVerifier(v) => {
                         let f: rbpf::Verifier = match v {
                             Ver::Default => v_default_like,
@@ -412,6 +437,7 @@ pub fn exec_history(kind: &Kind, ops: &[Op], pool: &[PoolProg], pk: (*mut u8, us
                     return;
                 }
                 Obs::Skipped => out.push(4),
+                Obs::CalcPanicked => out.push(6),
                 Obs::Diverged(m) => {
                     out.push(5);
                     let b = m.as_bytes();
@@ -441,7 +467,8 @@ pub fn run(a: &Args, rep: &mut Report) {
         for _ in 1..len {
             ops.push(match rng.below(20) {
                 0 => Op::New(if rng.chance(1, 3) { None } else { Some(*rng.pick(&progs_for_kind)) }),
-                1..=4 => Op::SetProgram(*rng.pick(&progs_for_kind)),
+                1..=3 => Op::SetProgram(*rng.pick(&progs_for_kind)),
+                4 => if rng.chance(1, 2) { Op::SetProgramCalcPanics(*rng.pick(&progs_for_kind)) } else { Op::SetProgram(*rng.pick(&progs_for_kind)) },
                 5 | 6 => Op::SetVerifier(*rng.pick(&[Ver::Default, Ver::AcceptAll, Ver::RejectAll, Ver::Custom])),
                 7 => Op::RegisterHelper(rng.below(8) as usize),
                 8 => Op::SetCalc,
@@ -552,6 +579,10 @@ pub fn run(a: &Args, rep: &mut Report) {
                     pos += 2 + l;
                     Obs::Diverged(msg)
                 }
+                6 => {
+                    pos += 1;
+                    Obs::CalcPanicked
+                }
                 _ => {
                     pos += 1;
                     Obs::Skipped
@@ -590,7 +621,20 @@ pub fn run(a: &Args, rep: &mut Report) {
                         }
                     }
                 }
-                Op::SetProgram(p) => {
+                Op::SetProgramCalcPanics(p) if m.calc => {
+                    // the verifier runs first: a refused program is an error; an accepted one reaches
+                    // the calculator, whose panic unwinds out of the call. Either way the call did not
+                    // load anything: the VM must behave exactly as before (the model is not updated)
+                    let ok = accepts(m.ver, &pool[*p]);
+                    match (&obs, ok) {
+                        (Obs::CalcPanicked, true) | (Obs::Err, false) | (Obs::CalcPanicked, false) => {}
+                        (o, _) => {
+                            fail(rep, "verdict", format!("set_program with a panicking calculator returned {o:?} (verifier {} the program)", if ok { "accepts" } else { "refuses" }));
+                            stop = true;
+                        }
+                    }
+                }
+                Op::SetProgram(p) | Op::SetProgramCalcPanics(p) => {
                     let ok = accepts(m.ver, &pool[*p]);
                     match (&obs, ok) {
                         (Obs::Ok, true) => {
